@@ -213,6 +213,7 @@ struct World {
    int current_op = 0;
    bool last_op_faulted = false;       // the last apply() was cut short by an injected bad_alloc
    uint64_t faults_configured = 0, faults_fired = 0;
+   uint64_t observations = 0;          // counts observations; decides the order in which each one reads sequences
    const void* touching = nullptr;     // container the current op mutates (tainted if the op is cut short)
    std::set<const void*> tainted;      // containers whose model conformance is no longer asserted (after an injected failure)
    Verdict verdict;                 // first violation recorded while applying operations
